@@ -367,38 +367,39 @@ structure SrvD where
   alive : Bool := false
   deriving Repr
 
+/-- the disk after the registered object's cleanup (`close_service()` writes its snapshot back) -/
+def cleanupDisk (p : Program) (s : SrvD) : Disk :=
+  match s.conn with
+  | some c => closeConn p s.disk c
+  | none => s.disk
+
+/-- open a new connection: `Service(sid, ws)` reads `dRead`; afterwards the disk is `dAfter` -/
+def connectOn (p : Program) (dRead dAfter : Disk) : SrvD × List Out :=
+  match construct p dRead with
+  | some (c, o) => ({ disk := dAfter, conn := some c, alive := true }, o.reverse)
+  | none => ({ disk := dAfter, conn := none, alive := false }, [.closed])
+
+/-- wait for the old connection's cleanup, then connect -/
+def reconnectSlow (p : Program) (s : SrvD) : SrvD × List Out :=
+  connectOn p (cleanupDisk p s) (cleanupDisk p s)
+
+/-- connect at once: `create_service` builds the new `Service` (reading the disk as it is now) and the
+    old connection's cleanup completes while the new one waits for the registry lock -/
+def reconnectFast (p : Program) (s : SrvD) : SrvD × List Out :=
+  connectOn p s.disk (cleanupDisk p s)
+
 def stepEv (p : Program) (s : SrvD) (ev : Ev) : SrvD × List Out :=
-  let reconnect (s : SrvD) : SrvD × List Out :=
-    let d := match s.conn with
-      | some c => closeConn p s.disk c
-      | none => s.disk
-    match construct p d with
-    | some (c, o) => ({ disk := d, conn := some c, alive := true }, o.reverse)
-    | none => ({ disk := d, conn := none, alive := false }, [.closed])
   match ev with
-  | .reconnect => reconnect s
-  | .reconnectFast =>
-    -- create_service: `Service(sid, ws)` reads the disk now; the old connection's cleanup (which writes
-    -- its snapshot back) completes while the new one waits for the registry lock
-    match construct p s.disk with
-    | some (c, o) =>
-      let d := match s.conn with
-        | some old => closeConn p s.disk old
-        | none => s.disk
-      ({ disk := d, conn := some c, alive := true }, o.reverse)
-    | none =>
-      let d := match s.conn with
-        | some old => closeConn p s.disk old
-        | none => s.disk
-      ({ disk := d, conn := none, alive := false }, [.closed])
+  | .reconnect => reconnectSlow p s
+  | .reconnectFast => reconnectFast p s
   | .msg m =>
     -- a message needs a live connection: after a refusal the client connects again first
-    let (s1, o1) := if s.alive then (s, []) else reconnect s
-    match s1.conn, s1.alive with
+    let r1 := if s.alive then (s, []) else reconnectSlow p s
+    match r1.1.conn, r1.1.alive with
     | some c, true =>
-      let (d, c', alive, o, _) := handleMsg p s1.disk c m
-      ({ disk := d, conn := some c', alive := alive }, o1 ++ o)       -- a dead object survives until its cleanup
-    | _, _ => (s1, o1)
+      let r := handleMsg p r1.1.disk c m
+      ({ disk := r.1, conn := some r.2.1, alive := r.2.2.1 }, r1.2 ++ r.2.2.2.1)   -- a dead object survives until its cleanup
+    | _, _ => r1
 
 def runEvs (p : Program) (s : SrvD) : List Ev → SrvD × List Out
   | [] => (s, [])
